@@ -363,3 +363,35 @@ def lines(path):
         if n.line and (not out or out[-1] != n.line):
             out.append(n.line)
     return out
+
+
+def flag_cuts_from(cfg, sources, flag):
+    """infeasible edges of tests of a constant-only boolean `flag` on paths that start at
+    `sources`: the value is the (unique) constant reaching the sources unless re-assigned."""
+    from .flow import reaching_defs
+    vals = set()
+    for s in sources:
+        for d in reaching_defs(cfg, s, flag):
+            if d.kind == "stmt" and isinstance(d.ast, ast.Assign) and isinstance(d.ast.value, ast.Constant):
+                vals.add(bool(d.ast.value.value))
+            else:
+                return set()
+    if len(vals) != 1:
+        return set()
+    val = vals.pop()
+    # assignments of the flag reachable from the sources invalidate the knowledge beyond them
+    kills = [n for n in cfg.nodes if assigns(n, flag)]
+    starts = []
+    for s in sources:
+        starts += cfg.normal_succ(s)
+    seen = cfg.reach(starts, blocked=kills)
+    cut = set()
+    for n in cfg.nodes:
+        if n.kind == "test" and n.id in seen:
+            t, neg = n.expr, False
+            while isinstance(t, ast.UnaryOp) and isinstance(t.op, ast.Not):
+                t, neg = t.operand, not neg
+            if isinstance(t, ast.Name) and t.id == flag:
+                outcome = val != neg
+                cut.add((n.id, "F" if outcome else "T"))
+    return cut
